@@ -17,6 +17,7 @@ inductive Answer
 inductive CmdAnswer
   | exit (code : Nat) (stdout : Str)     -- `status.success()` iff `code = 0`
   | spawnErr
+  | signal (sig : Nat) (stdout : Str)    -- killed by a signal: no exit code, never a success
   deriving DecidableEq, Repr
 
 inductive Ev
@@ -135,6 +136,16 @@ def systemErrorText (code : Nat) (out : Str) : Str :=
   kw "process exited unsuccessfully: exit status: " ++ natToStr code ++ kw "\nstdout: " ++ out ++
     kw "\nstderr: "
 
+/-- std's `signal_string` for the signals the harness uses -/
+def signalName (sig : Nat) : Str :=
+  if sig = 1 then kw " (SIGHUP)" else if sig = 2 then kw " (SIGINT)"
+  else if sig = 9 then kw " (SIGKILL)" else if sig = 15 then kw " (SIGTERM)" else []
+
+/-- the same for a process that was killed by a signal (`ExitStatus` prints `signal: 9 (SIGKILL)`) -/
+def signalErrorText (sig : Nat) (out : Str) : Str :=
+  kw "process exited unsuccessfully: signal: " ++ natToStr sig ++ signalName sig ++
+    kw "\nstdout: " ++ out ++ kw "\nstderr: "
+
 /-- `command.trim().ends_with('&')` -/
 def isBackground (cmd : Str) : Bool := endsWithChar (trim cmd) '&'
 
@@ -153,6 +164,7 @@ def applySystem (E : Env σ) (cfg : RCfg) (w : World σ) (conds : List Cond) (co
         | .exit code out =>
           if code = 0 then (w', .system (if expStdout.isSome then some out else none) none)
           else (w', .system none (some (systemErrorText code out)))
+        | .signal sig out => (w', .system none (some (signalErrorText sig out)))
 
 def applyControl (w : World σ) : Control → World σ
   | .sortMode m => { w with sortMode := some m }
